@@ -379,4 +379,73 @@ theorem C01_settled_system (ops sched : List SysOp) (hall : SysAllowed (sched ++
     | none => rfl
     | some xk => exact hnone k xk hxk
 
+/-! ### Non-vacuity on the concrete run of `Props/C04.lean` (`SysEx.hist`, `SysEx.sched`) -/
+
+open Piko.Gossip Piko.SysEx in
+namespace SysEx
+
+theorem registry_final {k : String} {x : SysNode} (h : (Sys.runRev (sched ++ hist)).node k = some x) (e : String) :
+    x.mgr.registry e = if k = "n1" ∧ e = "foo" then [3] else if k = "n2" ∧ e = "foo" then [5] else [] := by
+  rcases final_node h with ⟨rfl, hl, _, _⟩ | ⟨rfl, hl, _, _⟩ | ⟨rfl, hl, _, _⟩ <;>
+    simp only [Upstream.Mgr.registry, hl, AMap.find_cons, AMap.find_nil] <;>
+    (by_cases he : "foo" = e
+     · subst he; simp
+     · have he' : ¬ e = "foo" := fun h => he h.symm
+       simp [he, he'])
+
+theorem healthy : SysHealthy (Sys.runRev (sched ++ hist)) where
+  notLeft := by
+    intro n x h
+    rcases final_node h with ⟨_, _, _, hl⟩ | ⟨_, _, _, hl⟩ | ⟨_, _, _, hl⟩ <;> exact hl
+  reachable := fun n x a V h hV hne =>
+    no_unreachable_of_noLiveEvs (sysInv_runRev _ allowed) (noLiveEvs_runRev _ allowed noLiveness) h hV hne
+  addrs := by
+    intro n x h
+    rcases final_node h with ⟨_, _, hl, _⟩ | ⟨_, _, hl, _⟩ | ⟨_, _, hl, _⟩ <;> rw [hl] <;> decide
+  small := by
+    intro n x e h
+    rw [registry_final h]
+    split
+    · simp
+    · split <;> simp
+  distinct := by
+    intro a b xa xb ha hb hab
+    rcases final_node ha with ⟨rfl, _, hla, _⟩ | ⟨rfl, _, hla, _⟩ | ⟨rfl, _, hla, _⟩ <;>
+      rcases final_node hb with ⟨rfl, _, hlb, _⟩ | ⟨rfl, _, hlb, _⟩ | ⟨rfl, _, hlb, _⟩ <;>
+      first
+      | rfl
+      | (rw [hla, hlb] at hab; revert hab; decide)
+
+end SysEx
+
+/-- **Non-vacuity of `C01_settled_system`** on the concrete run, for every choice `LookupEndpoint`
+makes: a request for `foo` entering at `n0` (no upstream of its own) is delivered to upstream 3 on
+`n1` or to upstream 5 on `n2`; a request for `bar` - registered on `n1` and withdrawn again - is
+answered 502 by `n0`. -/
+example (choices : List Nat) :
+    (∃ k u, (route C01Ex.lib0 (Sys.runRev (sched ++ hist)).world "n0" { host := "foo.example.com" } choices).1.outcome =
+        .served k "foo" u ∧ ((k = "n1" ∧ u = 3) ∨ (k = "n2" ∧ u = 5))) ∧
+    (route C01Ex.lib0 (Sys.runRev (sched ++ hist)).world "n0" { host := "bar.example.com" } choices).1 =
+      { visited := ["n0"], via := [], outcome := .noUpstream "n0" } := by
+  obtain ⟨x0, h0⟩ := final_exists "n0" (Or.inl rfl)
+  obtain ⟨x1, h1⟩ := final_exists "n1" (Or.inr (Or.inl rfl))
+  constructor
+  · have h := (C01_settled_system hist sched allowed quiet joins healthy C01Ex.lib0 "n0" x0 h0
+      { host := "foo.example.com" } rfl "foo" (by decide) choices).1
+      ⟨"n1", x1, h1, by rw [registry_final h1]; simp⟩
+    obtain ⟨k, xk, u, hk, hu, hout⟩ := h
+    refine ⟨k, u, hout, ?_⟩
+    rw [registry_final hk] at hu
+    split at hu
+    · next hc => exact Or.inl ⟨hc.1, by simpa using hu⟩
+    · split at hu
+      · next hc => exact Or.inr ⟨hc.1, by simpa using hu⟩
+      · simp at hu
+  · refine (C01_settled_system hist sched allowed quiet joins healthy C01Ex.lib0 "n0" x0 h0
+      { host := "bar.example.com" } rfl "bar" (by decide) choices).2 ?_
+    intro k xk hk
+    rw [registry_final hk]
+    simp
+
+
 end Piko
